@@ -707,6 +707,8 @@ def meta_faults(root, attrs):
             put(f"{which[:4]}:{label}", {**g, which: newmd})
 
         putmd("extra-entry", {**md, "ghost": md_entry("ghost", "float32", "plain")})
+        for key in (".", "..", "/", "values", "../ids", "../../nodes/ids", " "):
+            putmd(f"path-like-extra-entry:{key}", {**md, key: md_entry(key, "int64", "plain")})
         putmd("extra-varlen-entry", {**md, "ghost": md_entry("ghost", "float32", "varlen")})
         for name, e in md.items():
             putmd(f"drop-entry:{name}", {k: v for k, v in md.items() if k != name})
@@ -727,6 +729,13 @@ def meta_faults(root, attrs):
             putmd(f"renamed-key:{name}", {**{k: v for k, v in md.items() if k != name}, name + "2": {**e, "identifier": name + "2"}})
             putmd(f"optional-fields:{name}", {**md, name: {**e, "unit": "second", "name": "nice", "description": None}})
             putmd(f"unit-number:{name}", {**md, name: {**e, "unit": 5}})
+            # an EXTRA entry whose key is not a member name but a path / a decorated name that zarr would resolve
+            # to an existing node below `props` (identifier = key, so the metadata itself is valid): there is no
+            # property group of exactly that name -> non-conformant
+            for key in (name + "/", "/" + name, name + "/values", name + "/missing", name + "/data", "./" + name,
+                        name + "//values", "../props/" + name, "../../" + which[:4] + "s/props/" + name, " " + name,
+                        name + " ", "." + name, name + ".", name + "/.", name + "/../" + name):
+                putmd(f"path-like-extra-entry:{key}", {**md, key: {**e, "identifier": key}})
     # axes naming each node property / something else
     node_names = list(g["node_props_metadata"])
     for nm in node_names + ["ghost", "", "nodes", "values"]:
@@ -1046,7 +1055,7 @@ def run(ck: common.Check):
     ck.prove(["GeffProps.C04"])
     ck.rule = ("cases = corpus + 6 conformant bases x the mechanically generated single-fault catalogue "
                "(every node: delete, group<->array, every other dtype, rank+-1/0-d/length+-1, added members; "
-               "every metadata field: drop/wrong type/bad value, per property entry: drop/extra/move/every dtype/"
+               "every metadata field: drop/wrong type/bad value, per property entry: drop/extra/path-like extra keys (p/, /p, p/values, ./p, ../props/p, blanks, dots)/move/every dtype/"
                "varlength/identifier, axes naming every property) x zarr format 2/3 x string encoding, hand-made "
                "composites (id dtype pairs, stated x stored dtype matrix, nested axis path), root faults, sampled "
                "fault pairs, random conformant stores; non-trivial = anything but an untouched base; distinct = "
@@ -1066,9 +1075,9 @@ def run(ck: common.Check):
     cases += cd
     ck.extra["corrupt_zarr_documents(exploration, no model)"] = len(cd)
     ck.extra["single_fault_catalogue"] = len(cat)
-    npairs = 450 if ck.quick else 16000
+    npairs = 350 if ck.quick else 16000
     cases += fault_pairs(ck.rng, npairs)
-    nconf = 200 if ck.quick else 3000
+    nconf = 120 if ck.quick else 3000
     cases += [("random-conformant", random_conformant(ck.rng)) for _ in range(nconf)]
     ck.extra["fault_pairs"] = npairs
     ck.extra["random_conformant"] = nconf
